@@ -78,6 +78,11 @@ def showView (inv : Inv) (vn : Nat) : String :=
   match inv.getVersion vn with
   | none => "err:notFound"
   | some v =>
+    -- `construct_state` resolves a content path for every entry; a digest without one is `CorruptObject`
+    if v.state.any (fun e => match inv.contentPathsForDigest e.2 (inv.lastUpdate vn e.1) (some e.1) with
+        | .ok _ => false
+        | .error _ => true) then "err:corrupt"
+    else
     let rows := v.state.map (fun e =>
       let cps := match inv.contentPathsForDigest e.2 (inv.lastUpdate vn e.1) (some e.1) with
         | .ok cps => joinHex (cps.map inv.showCPath) "|"
